@@ -37,6 +37,11 @@ pub fn run_program(ctx: &mut Ctx, mode: Mode, prog: &MpcProg, cfgs: &[Config], t
     let prop = ctx.prop.clone();
     let n_draws = ctx.q(2, 4);
     let n_seeds = ctx.q(1, 2);
+    if max_node_bits(&prog.ctx) > GIANT_NODE_BITS {
+        // a (dangling) node value of more than 16 MB: evaluating it is an allocation problem, not a case
+        ctx.count("skipped_giant_node_program", 1);
+        return;
+    }
     let ctx_json = serde_json::to_string(&prog.ctx).unwrap_or_default();
     for cfg in cfgs.iter() {
         let key = format!("{}|{}", tag, cfg.inline_name);
